@@ -50,3 +50,18 @@ Print Assumptions C16_added_range_accepts_writes.
 Print Assumptions C16_shrink_refused.
 Print Assumptions C16_size_survives_reopen.
 Print Assumptions C16_in_histories.
+
+(** controller half (model Ctl): the executable trace oracle [c16_step] (a resize that does not grow is
+    refused and touches nothing; a grow gives the new size to every replica in service that does not
+    fail the call, the volume size changes exactly when the request is acknowledged, and exactly the
+    replicas that failed the call leave the service) accepts every trace of the controller model,
+    histories with concurrent pairs included; [n] observed replicas, every added / started address below [n] *)
+From Jiva Require Import Ctl.Model Ctl.Corr Ctl.Oracles Ctl.OracleProofsX Ctl.OracleProofsX3.
+
+Theorem C16_controller_oracle_accepts_model_traces_with_pairs : forall xs rf0 n w0, (1 <= rf0)%nat ->
+  forallb xev_wf xs = true -> forallb (xev_addrs_lt n) xs = true ->
+  Ctl.Oracles.walk (Ctl.Oracles.lift (c16_step rf0) nopair) 0 (Ctl.Oracles.obs0 rf0 n w0) xs
+                   (Ctl.Corr.trace n (Ctl.Model.init rf0 w0) xs) = None.
+Proof. exact c16_oracle_model_x. Qed.
+
+Print Assumptions C16_controller_oracle_accepts_model_traces_with_pairs.
